@@ -181,3 +181,17 @@ pub fn check_one<E: Debug + PartialEq>(m: &mut Mon, spec: &'static PSpec, apis: 
         }
     }
 }
+
+/// Only the declared spellings and the python-provided probes (used where the hostile input
+/// generator would be redundant, e.g. C07's exhaustive identifier corpus).
+pub fn drive_parse_listed<E: Debug + PartialEq>(m: &mut Mon, spec: &'static PSpec, apis: &ParseApis<E>) {
+    for v in spec.variants {
+        for sp in v.spellings {
+            check_one(m, spec, apis, sp, "I1-spelling");
+        }
+    }
+    for (class, s) in spec.extra {
+        check_one(m, spec, apis, s, class);
+    }
+    check_one(m, spec, apis, "", "I8-empty");
+}
